@@ -7,6 +7,8 @@ import sys, os, shutil, subprocess, tempfile, json, re, glob
 ENV = dict(os.environ, GOFLAGS='-mod=mod', GOPROXY='off', GOSUMDB='off', GOTOOLCHAIN='local')
 arg = sys.argv[1]; pid = arg[:3]; allp = '--all-props' in sys.argv; norep = '--no-replay' in sys.argv
 src = f'/tmp/wt/{arg}/_seed' if os.path.isdir(f'/tmp/wt/{arg}/_seed') else f'/verif/seeded/{arg.lower()}-agent'
+if os.path.isdir(f'/tmp/wt/{arg[:-1]}/_seed_{arg[-1]}'):
+    src = f'/tmp/wt/{arg[:-1]}/_seed_{arg[-1]}'  # two seeds per worktree: <Cxx>f + a|b
 name = f'{arg.lower()}-agent'
 dst = f'/verif/seeded/{name}'
 if src != dst:
